@@ -58,7 +58,7 @@ class TypeObject:
     is_thrift_enum: bool = field(init=False)
     is_universally_assignable: bool = field(init=False)
     artificial_bases: set[type] = field(default_factory=set, init=False)
-    _protocol_positive_cache: dict[tuple[Value, Value], BoundsMap] = field(
+    _protocol_positive_cache: dict[tuple[Value, Value, str, str], BoundsMap] = field(
         default_factory=dict, repr=False
     )
 
@@ -145,7 +145,10 @@ class TypeObject:
                 )
             # The verdict depends on the type arguments of the protocol too
             # (SupportsAbs[int] vs. SupportsAbs[str]), so self_val is part of the key.
-            cache_key = (self_val, other_val)
+            # Unions compare equal regardless of the order of their members, but the
+            # order shows up in the bounds (and thus in error messages), so the display
+            # form is part of the key too.
+            cache_key = (self_val, other_val, str(self_val), str(other_val))
             bounds_map = self._protocol_positive_cache.get(cache_key)
             if bounds_map is not None:
                 return bounds_map
